@@ -243,6 +243,8 @@ theorem step_kinds (w w' : World) (e : Ev) (h : step w e = some w') :
          cases h
          refine ⟨fun x info hx => getOp_cons_fresh ?_ hx rfl, fun op0 k0 c0 hm => ?_⟩
          · first
+             | (simp only [Bool.or_eq_true, not_or, Bool.not_eq_true] at h2; exact h2.1.1)
+             | (simp only [Bool.or_eq_true, not_or, Bool.not_eq_true] at h1; exact h1.1.1)
              | (simp only [Bool.or_eq_true, not_or, Bool.not_eq_true] at h2; exact h2.1)
              | (simp only [Bool.or_eq_true, not_or, Bool.not_eq_true] at h1; exact h1.1)
              | (simpa using h2)
